@@ -108,7 +108,9 @@ func (c cfg) String() string {
 	return fmt.Sprintf("%s capture=%v init=%v/%s base=%q fail=%v", c.format, c.capture, c.hasInit, c.init, c.base, c.fail)
 }
 
-type bnNumbering struct{ m map[rdf.BlankNodeIdentifier]int }
+type bnNumbering struct {
+	m map[rdf.BlankNodeIdentifier]int
+}
 
 func (b *bnNumbering) label(n rdf.BlankNode) string {
 	if n.Identifier == nil {
